@@ -86,6 +86,12 @@ def run_case(cs):
     for h in hists:
         ms, _ = hist.load_history(root, h)
         model[h] = ms
+    if rng.random() < 0.3:
+        # the history is read in another zone than the one it was written in: the dates are reported as written
+        from .. import clock
+
+        clock.set_zone(rng.choice(["Asia/Tokyo", "America/Los_Angeles", "UTC", "Asia/Kolkata", "Pacific/Kiritimati", "America/St_Johns"]))
+        cs.count("info_in_another_zone")
     # ---------- info ROOT
     verbose = rng.random() < 0.2
     r = drive.run("info", [root] + (["-v"] if verbose else []))
@@ -145,6 +151,11 @@ def run_case(cs):
             via = os.path.join(link, os.path.basename(root))
             hroot = via if h == "." else os.path.join(via, h)
             cs.count("info_sf_via_symlinked_ancestor")
+        outer = give_root and h != "." and rng.random() < 0.5
+        if outer:
+            # the folder given is an enclosing history: the file's records are still those of its nearest history
+            hroot = via
+            cs.count("info_sf_with_enclosing_root_given")
         argv = ["-sf", os.path.join(via, f)] + ([hroot] if give_root else [])
         r = drive.run("info", argv)
         cs.evaluated()
@@ -158,7 +169,7 @@ def run_case(cs):
                         want.append((no, m["creatorinfo"]["creationdate"], fm, dg, a))
                         acts.add(a)
         cs.cls("sf", "nested" if h != "." else "root", "+".join(sorted(acts)), "rootgiven" if give_root else "", "symlink" if via != root else "", r.exit)
-        c2 = {**ctx, "file": f, "history": h, "root_given": give_root}
+        c2 = {**ctx, "file": f, "history": h, "root_given": give_root, "enclosing_root_given": outer}
         if r.internal:
             cs.violation(classify.internal_key(r), classify.internal_sig(r, "info-sf"), {**c2, **r.brief()})
             continue
@@ -173,7 +184,7 @@ def run_case(cs):
         if got != want:
             cs.violation(
                 "info-sf-lines-differ",
-                {"kind": "info-sf-lines", "fewer": len(got) < len(want), "more": len(got) > len(want), "same_multiset": sorted(got) == sorted(want), "nested": h != "."},
+                {"kind": "info-sf-lines", "fewer": len(got) < len(want), "more": len(got) > len(want), "same_multiset": sorted(got) == sorted(want), "nested": h != ".", "enclosing_root_given": outer},
                 {**c2, "got": got[:5], "want": want[:5]},
             )
     # ---------- verbose per-file listing: same generation lines (plus details), no internal error
